@@ -13,6 +13,7 @@ Module containing the class for evaluating QASM expressions.
 
 """
 
+import numpy as np
 from openqasm3.ast import (
     BinaryExpression,
     BooleanLiteral,
@@ -184,6 +185,9 @@ class Qasm3ExprEvaluator:
         def _check_and_return_value(value):
             if validate_only:
                 return None, statements
+            if isinstance(value, np.generic):
+                # an array element: compute with the Python value, not with the fixed-width numpy scalar
+                value = value.item()
             return value, statements
 
         def _process_variable(var_name: str, indices=None):
